@@ -187,7 +187,7 @@ def generate(R, tier, focus):
     # binary / Brier evaluations are driven through the library's own random_numbers= seam
     wide = focus == 'C16' and R.random() < 0.4
     rates = gen_rates(R, nc, nm, binary_focus, wide=wide)
-    world = {'region': region, 'mags': mags, 'rates': rates, 'start_ms': gen.T0_MS,
+    world = {'region': region, 'mags': mags, 'rates': rates, 'start_ms': gen.T0_MS, 'unnamed': R.random() < 0.15,
              'end_ms': gen.T0_MS + gen.YEAR_MS, 'layout': R.choice(('C', 'C', 'C', 'F', 'T'))}
     n_max = 30 if not thorough else R.choice((30, 100, 300))
     n_pos = sum(1 for row in rates for v in row if v > 0)
@@ -231,7 +231,13 @@ def generate(R, tier, focus):
         R.shuffle(alt_perm)
     world['alt_perm'] = alt_perm
     world['bench'] = [[10 ** R.uniform(-3, 1) for _ in row] for row in rates]
-    wB = alt_world(world) if alt_perm else None
+    if alt_perm is None and nm >= 3 and R.random() < 0.15:
+        # ... or a second forecast on the same cells with coarser magnitude bins (every second edge) and its own rates
+        nmB = len(mags['edges'][::2])
+        world['alt_mags'] = {'mags': {'dm': gen.dec(mags['dm'] * 2, 4), 'edges': mags['edges'][::2]},
+                             'rates': gen_rates(R, nc, nmB, binary_focus),
+                             'bench': [[10 ** R.uniform(-3, 1) for _ in range(nmB)] for _ in range(nc)]}
+    wB = alt_world(world) if (alt_perm or world.get('alt_mags')) else None
     seeds = [None, 0, 1, 2 ** 32 - 1, R.randint(2, 10 ** 6)]
     n_ops = R.randint(1, 7) if not thorough else R.randint(1, 14)
     ops = []
@@ -274,7 +280,7 @@ def generate(R, tier, focus):
             ops.append(op)
             templates.append(op)
             continue
-        counts = grid_counts(obs[oi]['events'], region_w, mags)
+        counts = grid_counts(obs[oi]['events'], region_w, wr['mags'])
         fc = flat_counts(test, counts)
         n_obs = int(fc.sum())
         n_active = int((fc > 0).sum())
@@ -331,6 +337,9 @@ def generate(R, tier, focus):
 def alt_world(world):
     """the same forecast with its cells (and rate rows) listed in the order world['alt_perm']"""
     w = dict(world)
+    if world.get('alt_mags') and not world.get('alt_perm'):
+        w.update(world['alt_mags'])
+        return w
     perm = world['alt_perm']
     reg = dict(world['region'])
     if reg['kind'] == 'cart':
@@ -591,11 +600,13 @@ def liveness_budget(test, rates2d, n_active, nsim):
 
 
 def _execute(scn, ctx, rng, collect_results):
-    mags = scn['mags']
     worlds = {'A': scn}
     if scn.get('alt_perm'):
         worlds['B'] = alt_world(scn)
         ctx.count('cfg:second_forecast_with_permuted_cells')
+    elif scn.get('alt_mags'):
+        worlds['B'] = alt_world(scn)
+        ctx.count('cfg:second_forecast_with_other_magnitude_bins')
     fcs = {k: build.make_gridded(w) for k, w in worlds.items()}
     factor = {k: 1 for k in worlds}
     shared_cats = {}
@@ -608,7 +619,7 @@ def _execute(scn, ctx, rng, collect_results):
         # one catalog object per observed catalog, re-bound to the region of the forecast it is evaluated against
         c = shared_cats.get(oi_)
         if c is None:
-            c = build.make_catalog(scn['obs'][oi_]['events'], region=fcs[k].region, name='obs',
+            c = build.make_catalog(scn['obs'][oi_]['events'], region=fcs[k].region, name=None if scn.get('unnamed') else 'obs',
                                    as_array=(scn.get('initial_rng', 0) + oi_) % 3 == 0)
             shared_cats[oi_] = c
         c.region = fcs[k].region
@@ -637,6 +648,7 @@ def _execute(scn, ctx, rng, collect_results):
         fc = fcs[which]
         rates = cur_rates(which)
         region = worlds[which]['region']
+        mags = worlds[which]['mags']
         if op['op'] == 'OTHER':
             from csep.core import poisson_evaluations as pe
             what = op['what']
@@ -735,7 +747,8 @@ def _execute(scn, ctx, rng, collect_results):
         dist = v['dist']
         ctx.log('test', oi, test, seed, v['obs'], v['quantile'], dist)
         if hexf(numpy.array(fc.data)) != hexf(numpy.array(rates, dtype=float)):
-            ctx.violate('C06', 'purity', '%s:forecast-rates-modified' % test, {'op': oi})
+            ctx.violate(ctx.focus if ctx.focus in ('C05', 'C16') else 'C06', 'purity',
+                        '%s:forecast-rates-modified' % test, {'op': oi})
             return
         # ---- observed statistic (C05 / C16) ------------------------------------------------------------
         want_obs = stat_of(test, rates, flat.tolist(), fcnt.tolist(), n_obs)
